@@ -9,7 +9,7 @@ import PkgProofs.Lemmas.PyElf
   (`PyElf.fmtSizes` of the strings = the table's byte order and field sizes, row by row).
 * `ELFFile.interpreter_eq_model`: the translated property on such an instance is `ofInterp (Elf.interpreter f h)`.  The
   `for` loop (with `continue`, an early `return`, nested `try`) is handled by a loop lemma over an abstract body
-  (`loop_exists`) whose one-iteration specification `stepRes` is then established for the generated body.
+  (`elfLoop_exists`) whose one-iteration specification `elfStepRes` is then established for the generated body.
 * `ELFFile.init_interpreter_eq_model`: both, for every file the model accepts (`parse_idx`: the index hypothesis of the
   second theorem holds for every header `parse` returns).
 -/
@@ -146,11 +146,11 @@ theorem ELFFile.__init___eq_model (f : Bytes) (hb : IsBytes f) :
 /-! ## `ELFFile.interpreter` -/
 
 /-- loop state of the translated `for`: (early-return value, `self`, `data`) -/
-abbrev LoopSt := Option PyVal × PyVal × PyVal
+abbrev ElfLoopSt := Option PyVal × PyVal × PyVal
 
 /-- one iteration of the loop of `ELFFile.interpreter` at program-header index `i` (the file position before the
 iteration does not matter: the body `seek`s first) -/
-def stepRes (f : Bytes) (h : Header) (pfmt : Str) (i : Nat) (d : PyVal) : M (ForInStep LoopSt) :=
+def elfStepRes (f : Bytes) (h : Header) (pfmt : Str) (i : Nat) (d : PyVal) : M (ForInStep ElfLoopSt) :=
   let pos := h.phoff + h.phentsize * i
   if pos > ssizeMax then .error "OverflowError" else
   match Elf.unpack h.le h.pSizes (readAt f pos h.pSizes.sum) with
@@ -166,19 +166,19 @@ def stepRes (f : Bytes) (h : Header) (pfmt : Str) (i : Nat) (d : PyVal) : M (For
       else .error "PyRtUnsupported"
 
 /-- the state the loop ends in, for the model's answer -/
-def ofLoop (f : Bytes) (h : Header) (pfmt : Str) : Except Unit (Option Bytes) → Nat → PyVal → M LoopSt
+def elfOfLoop (f : Bytes) (h : Header) (pfmt : Str) : Except Unit (Option Bytes) → Nat → PyVal → M ElfLoopSt
   | .error _, _, _ => .error "OverflowError"
   | .ok none, p, d => .ok (none, elfObj f p h pfmt, d)
   | .ok (some b), p, d => if b.all (· < 128) then .ok (some (.str b), elfObj f p h pfmt, d) else .error "PyRtUnsupported"
 
-theorem loop_exists (f : Bytes) (h : Header) (pfmt : Str) (body : PyVal → LoopSt → M (ForInStep LoopSt))
-    (hstep : ∀ (i p : Nat) (d : PyVal), body (.int (i : Int)) (none, elfObj f p h pfmt, d) = stepRes f h pfmt i d)
+theorem elfLoop_exists (f : Bytes) (h : Header) (pfmt : Str) (body : PyVal → ElfLoopSt → M (ForInStep ElfLoopSt))
+    (hstep : ∀ (i p : Nat) (d : PyVal), body (.int (i : Int)) (none, elfObj f p h pfmt, d) = elfStepRes f h pfmt i d)
     (n i p : Nat) (d : PyVal) :
-    ∃ p' d', forIn (natItems i n) (none, elfObj f p h pfmt, d) body = ofLoop f h pfmt (interpLoop f h n i) p' d' := by
+    ∃ p' d', forIn (natItems i n) (none, elfObj f p h pfmt, d) body = elfOfLoop f h pfmt (interpLoop f h n i) p' d' := by
   induction n generalizing i p d with
   | zero => exact ⟨p, d, rfl⟩
   | succ k ih =>
-    simp only [natItems, List.forIn_cons, hstep, interpLoop, stepRes]
+    simp only [natItems, List.forIn_cons, hstep, interpLoop, elfStepRes]
     by_cases hpos : h.phoff + h.phentsize * i > ssizeMax
     · simp only [hpos, if_true]; exact ⟨0, .none, rfl⟩
     · simp only [hpos, if_false]
@@ -190,14 +190,14 @@ theorem loop_exists (f : Bytes) (h : Header) (pfmt : Str) (body : PyVal → Loop
         · simp only [h3, if_true, ok_bind]; exact ih _ _ _
         · simp only [h3, if_false, Bool.false_eq_true]
           by_cases ho : data.getD h.pIdx.2.1 0 > ssizeMax
-          · simp only [ho, if_true, decide_true, Bool.true_or, err_bind, ofLoop]; exact ⟨0, .none, trivial⟩
+          · simp only [ho, if_true, decide_true, Bool.true_or, err_bind, elfOfLoop]; exact ⟨0, .none, trivial⟩
           · by_cases hs : data.getD h.pIdx.2.2 0 > ssizeMax
-            · simp only [ho, hs, if_true, if_false, decide_true, decide_false, Bool.or_true, err_bind, ofLoop]
+            · simp only [ho, hs, if_true, if_false, decide_true, decide_false, Bool.or_true, err_bind, elfOfLoop]
               exact ⟨0, .none, trivial⟩
             · simp only [ho, hs, if_false, decide_false, Bool.or_self, Bool.false_eq_true]
               by_cases ha : (stripNul (readAt f (data.getD h.pIdx.2.1 0) (data.getD h.pIdx.2.2 0))).all (· < 128) = true
-              · simp only [ha, if_true, ok_bind, ofLoop]; exact ⟨_, _, rfl⟩
-              · simp only [ha, if_false, Bool.false_eq_true, err_bind, ofLoop]; exact ⟨0, .none, trivial⟩
+              · simp only [ha, if_true, ok_bind, elfOfLoop]; exact ⟨_, _, rfl⟩
+              · simp only [ha, if_false, Bool.false_eq_true, err_bind, elfOfLoop]; exact ⟨0, .none, trivial⟩
 
 theorem ELFFile.interpreter_eq_model (f : Bytes) (hb : IsBytes f) (pos : Nat) (h : Header) (pfmt : Str)
     (hf : fmtSizes pfmt = some (h.le, h.pSizes))
@@ -207,15 +207,15 @@ theorem ELFFile.interpreter_eq_model (f : Bytes) (hb : IsBytes f) (pos : Nat) (h
   have gnum : getattr (elfObj f pos h pfmt) "_e_phnum" = .ok (.int h.phnum) := by simp [elfObj]
   unfold Gen.PySrc.ELFFile.interpreter Elf.interpreter
   simp only [gnum, ok_bind, range1_nat, iterate_iter]
-  generalize hB : (forIn (natItems 0 h.phnum) _ _ : M LoopSt) = L
-  obtain ⟨p', d', hL⟩ : ∃ p' d', L = ofLoop f h pfmt (interpLoop f h h.phnum 0) p' d' := by
+  generalize hB : (forIn (natItems 0 h.phnum) _ _ : M ElfLoopSt) = L
+  obtain ⟨p', d', hL⟩ : ∃ p' d', L = elfOfLoop f h pfmt (interpLoop f h h.phnum 0) p' d' := by
     rw [← hB]
-    apply loop_exists
+    apply elfLoop_exists
     intro i p d
     have hcast : (h.phoff : Int) + (h.phentsize : Int) * (i : Int) = ((h.phoff + h.phentsize * i : Nat) : Int) := by
       push_cast; rfl
     simp only [elfObj, getattr_obj, lookupField_cons, String.reduceBEq, Bool.false_eq_true, if_false, if_true, ok_bind,
-      mul_int, add_int, hcast, seek_obj _ _ f _ _ hb', stepRes]
+      mul_int, add_int, hcast, seek_obj _ _ f _ _ hb', elfStepRes]
     by_cases hpos : h.phoff + h.phentsize * i > ssizeMax
     · simp only [hpos, if_true, err_bind]
     · simp only [hpos, if_false, ok_bind, getattr_obj, lookupField_cons, String.reduceBEq, Bool.false_eq_true, if_true,
@@ -251,16 +251,16 @@ theorem ELFFile.interpreter_eq_model (f : Bytes) (hb : IsBytes f) (pos : Nat) (h
   rw [hL]
   cases hr : interpLoop f h h.phnum 0 with
   | error u => 
-    simp only [ofLoop, ofInterp, err_bind, tryCatch_err', show catches "OverflowError" "OverflowError" = true from by decide,
+    simp only [elfOfLoop, ofInterp, err_bind, tryCatch_err', show catches "OverflowError" "OverflowError" = true from by decide,
       Bool.true_or, if_true, throw_err]
   | ok o =>
     cases o with
     | none =>
-      simp only [ofLoop, ofInterp, ok_bind, exceptT_stateT_pure, tryCatch_ok', pure_ok]
+      simp only [elfOfLoop, ofInterp, ok_bind, exceptT_stateT_pure, tryCatch_ok', pure_ok]
     | some b =>
       by_cases ha : b.all (· < 128) = true
-      · simp only [ofLoop, ofInterp, ha, if_true, ok_bind, earlyReturn_eq, tryCatch_ok', pure_ok]
-      · simp only [ofLoop, ofInterp, ha, if_false, Bool.false_eq_true, err_bind, tryCatch_err']
+      · simp only [elfOfLoop, ofInterp, ha, if_true, ok_bind, earlyReturn_eq, tryCatch_ok', pure_ok]
+      · simp only [elfOfLoop, ofInterp, ha, if_false, Bool.false_eq_true, err_bind, tryCatch_err']
         have c : (catches "OverflowError" "PyRtUnsupported" || catches "OSError" "PyRtUnsupported" ||
             catches "ValueError" "PyRtUnsupported") = false := by decide
         simp only [c, Bool.false_eq_true, if_false, throw_err, err_bind]
